@@ -209,7 +209,7 @@ def run(ctx):
     # ---- 2. behaviours (expressions with predictions)
     n_sim = int(os.environ.get("C14_SIM", "1500" if thorough else "150"))   # per worker (4 workers)
     gens = [("mc/CExpr_gen_full.cfg" if thorough else "mc/CExpr_gen_quick.cfg", None),
-            ("mc/CExpr_gen_tern.cfg", None), ("mc/CExpr_sim.cfg", n_sim)]
+            ("mc/CExpr_gen_tern.cfg", None), ("mc/CExpr_gen_guard.cfg", None), ("mc/CExpr_sim.cfg", n_sim)]
     behs, pool = [], None
     for cfg, sim in gens:
         bs, p = tlc_gen(ctx, cfg, sim)
